@@ -434,6 +434,46 @@ func VerifDecodes(msgType uint8, body []byte) bool {
 	return decode(body, out) == nil
 }
 
+// VerifClaim is the decoded content of an alive, suspect or dead message.
+type VerifClaim struct {
+	Type        uint8
+	Incarnation uint32
+	Node        string
+	From        string
+	Addr        []byte
+	Port        uint16
+	Meta        []byte
+	Vsn         []uint8
+}
+
+// VerifDecodeClaim decodes the body of an alive, suspect or dead message.
+func VerifDecodeClaim(msgType uint8, body []byte) (VerifClaim, bool) {
+	c := VerifClaim{Type: msgType}
+	switch messageType(msgType) {
+	case aliveMsg:
+		var a alive
+		if decode(body, &a) != nil {
+			return c, false
+		}
+		c.Incarnation, c.Node, c.Addr, c.Port, c.Meta, c.Vsn = a.Incarnation, a.Node, a.Addr, a.Port, a.Meta, a.Vsn
+	case suspectMsg:
+		var s suspect
+		if decode(body, &s) != nil {
+			return c, false
+		}
+		c.Incarnation, c.Node, c.From = s.Incarnation, s.Node, s.From
+	case deadMsg:
+		var d dead
+		if decode(body, &d) != nil {
+			return c, false
+		}
+		c.Incarnation, c.Node, c.From = d.Incarnation, d.Node, d.From
+	default:
+		return c, false
+	}
+	return c, true
+}
+
 // VerifEncodeUserMsgHeader encodes a userMsgHeader with an arbitrary declared length.
 func VerifEncodeUserMsgHeader(n int) []byte {
 	buf, _ := encode(userMsg, &userMsgHeader{UserMsgLen: n}, false)
